@@ -281,8 +281,9 @@ def run(p, rep, tier):
     r4(p, rep)
     r5(p, rep)
     r6(p, rep)
-    from . import c06
+    from . import c06, c10
 
     rep.rule("C06.R5", "no hidden state survives a lookup: no mutable default arguments", "inventory", floor=50)
     c06.r5(p, rep)
+    c10.r1(p, rep)
     rep.info["undecided"] = "behaviour over all registry populations, registration orders and import histories"
